@@ -7,6 +7,11 @@ from harness.checks import dscommon
 replay = dscommon.replay
 
 
+def dsreplay_list_options():
+    from harness import dsreplay
+    return dsreplay.LIST_OPTIONS
+
+
 def run(ctx):
     ctx.rule = ("one case = (two inputs in different orders with different coverage [+ climatology], one set of <= k subsetting "
                 "options) x request menu; non-trivial = at least one option given")
@@ -25,6 +30,10 @@ def run(ctx):
         dscommon.run_family(ctx, "C03K1", fmt="text", variant={"time_format": "datehour"}, nontrivial_fn=lambda o: bool(o["opts"]["given"]), cli_lists=40)
         # lead times that are not whole hours (every lead time divided by 8: 12 h becomes 1.5 h)
         dscommon.run_family(ctx, "C03K1", fmt="text", variant={"lead_scale": 0.125}, nontrivial_fn=lambda o: bool(o["opts"]["given"]))
+        # list options spelled in another order with every value twice (-l 3,2,3,2), next to a second option (after seed C03-i: a station
+        # named twice slipped past -elevrange)
+        dscommon.run_family(ctx, "C03K2", fmt="text", variant={"opt_spelling": "repeat"}, nontrivial_fn=lambda o: True,
+                            select_fn=lambda o: len(o["opts"]["given"]) == 2 and any(n in o["opts"]["given"] for n in dsreplay_list_options()))
         # a NetCDF file whose integer time variable has an unwritten (missing) last entry: a missing coordinate is no initialisation time
         dscommon.run_family(ctx, "C03K1", fmt="netcdf", variant={"nc_pad_time": True, "nc_missing": "fill"}, nontrivial_fn=lambda o: bool(o["opts"]["given"]))
     else:
@@ -34,5 +43,7 @@ def run(ctx):
         dscommon.run_family(ctx, "C03K2", fmt="text", fresh=False, nontrivial_fn=lambda o: bool(o["opts"]["given"]))
         dscommon.run_family(ctx, "C03K2", fmt="text", variant={"time_format": "datehour"}, nontrivial_fn=lambda o: bool(o["opts"]["given"]), cli_lists=2000)
         dscommon.run_family(ctx, "C03K2", fmt="netcdf", variant={"lead_scale": 0.125}, nontrivial_fn=lambda o: bool(o["opts"]["given"]))
+        dscommon.run_family(ctx, "C03K3", fmt="text", variant={"opt_spelling": "repeat"}, nontrivial_fn=lambda o: True, timeout_s=1800,
+                            select_fn=lambda o: len(o["opts"]["given"]) >= 2 and any(n in o["opts"]["given"] for n in dsreplay_list_options()))
         ctx.exhaustive = True
     par.clean_workdirs()
